@@ -7,6 +7,7 @@
 package downloader
 
 import (
+	"math/big"
 	"sort"
 
 	"github.com/youchainhq/go-youchain/common"
@@ -116,7 +117,34 @@ type verifC19Chain struct {
 	db youdb.Database
 }
 
-func (c *verifC19Chain) TrieBackingDb(kind types.TrieKind) youdb.Database { return c.db }
+// TrieBackingDb as core.BlockChain.TrieBackingDb: the plain database for the state,
+// validator and staking tries, prefixed tables for the CHT and the BLT (the
+// harness checks the prefixes against core.ChtTablePrefix / BloomTrieTablePrefix).
+func (c *verifC19Chain) TrieBackingDb(kind types.TrieKind) youdb.Database {
+	switch kind {
+	case types.KindCht:
+		return youdb.NewTable(c.db, VerifC19ChtPrefix)
+	case types.KindBlt:
+		return youdb.NewTable(c.db, VerifC19BltPrefix)
+	default:
+		return c.db
+	}
+}
+func (c *verifC19Chain) UpdateTrustedCht(*types.Header) error { return nil }
+func (c *verifC19Chain) UpdateTrustedBlt(*types.Header) error { return nil }
+
+const (
+	VerifC19ChtPrefix = "cht-"
+	VerifC19BltPrefix = "blt-"
+)
+
+// the CHT / BLT entry points (fetchCht / fetchBlt -> fetchAcTrie -> syncCht / syncBlt)
+func (l *VerifC19Launcher) FetchCht(root common.Hash) error {
+	return l.d.fetchCht(&types.Header{Number: new(big.Int), ChtRoot: root.Bytes()})
+}
+func (l *VerifC19Launcher) FetchBlt(root common.Hash) error {
+	return l.d.fetchBlt(&types.Header{Number: new(big.Int), BltRoot: root.Bytes()})
+}
 
 type VerifC19Launcher struct{ d *Downloader }
 
